@@ -441,11 +441,11 @@ Qed.
 
 (* what wf_b needs to know about the host functions: a host other than the empty one is displayed as a
    non-empty text that does not start with ':' or '@' and does not end with '/'; the empty host as nothing *)
-Definition host_disp_ok (t : list N) : Prop :=
+Definition host_text_wf (t : list N) : Prop :=
   t <> [] /\ nnth t 0 <> Some 58 /\ nnth t 0 <> Some 64 /\ ends_with_byte 47 t = false.
 Definition HostWf (hp hpo : list N -> result host) (hd : host -> list N) : Prop :=
-  (forall s h, hp s = Ok h -> h <> HDomain [] -> host_disp_ok (hd h))
-  /\ (forall s h, hpo s = Ok h -> h <> HDomain [] -> host_disp_ok (hd h))
+  (forall s h, hp s = Ok h -> h <> HDomain [] -> host_text_wf (hd h))
+  /\ (forall s h, hpo s = Ok h -> h <> HDomain [] -> host_text_wf (hd h))
   /\ hd (HDomain []) = [].
 
 Lemma host_eq_dec_empty (h : host) : {h = HDomain []} + {h <> HDomain []}.
@@ -460,11 +460,11 @@ Theorem phap_shape st se ser l ser2 he hi pt rem : st_is_file st = false ->
   parse_host_and_port hp hpo hd CUrlParser st se ser l = POk (ser2, he, hi, pt, rem) ->
   exists h, ser2 = ser ++ hd h ++ ptext pt /\ he = nlen ser + nlen (hd h) /\ hi = hi_of_host h
     /\ match pt with Some p => p <= 65535 | None => True end
-    /\ ((h = HDomain [] /\ hd h = [] /\ pt = None /\ st_is_special st = false) \/ host_disp_ok (hd h)).
+    /\ ((h = HDomain [] /\ hd h = [] /\ pt = None /\ st_is_special st = false) \/ host_text_wf (hd h)).
 Proof.
   intros Hnf. destruct HW as (W1 & W2 & W3). unfold parse_host_and_port.
   destruct (parse_host hp hpo st l) as [[h remaining]| |] eqn:Eh; cbn [pbind]; try discriminate.
-  assert (h = HDomain [] \/ host_disp_ok (hd h)) as Hh.
+  assert (h = HDomain [] \/ host_text_wf (hd h)) as Hh.
   { destruct (host_eq_dec_empty h) as [E|E]; [left; exact E|]. right.
     unfold parse_host in Eh. rewrite Hnf in Eh.
     destruct (host_scan (st_is_special st) false [] l) as [t rm].
